@@ -1,6 +1,7 @@
 SPECIFICATION Spec
 CONSTANTS PMax = 12
           NR = 6
+          Family = "free"
           NE = 3
 INVARIANT SelfPerfect
 INVARIANT ContNested
